@@ -254,7 +254,9 @@ class PersLandscapeExact(PersLandscape):
             )
             return self.critical_pairs
 
-        A = self.dgms
+        # work on floats: sums such as (b + d) / 2 wrap around in a narrow
+        # integer dtype (uint8 diagrams)
+        A = np.asarray(self.dgms, dtype=float)
         # change A into a list
         A = list(A)
         # change inner nparrays into lists
